@@ -43,7 +43,7 @@ ASSUMPTIONS = [
     "hash collisions between unequal values are neither required nor forbidden",
 ]
 
-QUOTES = "'\"\\"
+QUOTES = "'\"\\{}%$"       # quotes, backslash, and what str.format / % / Template treat specially
 
 
 def is_expr(op):
@@ -212,7 +212,10 @@ def run(inp):
     if kind == "repr":
         f = build(inp[1])
         runs_f = canon.canon_fs(f)
-        r = repr(f)
+        try:
+            r = repr(f)
+        except Exception as e:  # noqa   repr() must not raise: reported as a repr that evaluates to nothing
+            r = "<repr raised %s>" % type(e).__name__
         lits = [repr(c.s) for c in f.chunks]
         try:
             v = eval(r, dict(vars(fmtfuncs)))
